@@ -124,6 +124,9 @@ def batch_main(pid, master, tier, start, count, hashseed):
     W.install()
     timeout = getattr(prop, "RUN_TIMEOUT", 120)
     out = sys.stdout
+    if getattr(prop, "NEEDS_REFSERVER", False):
+        from . import refserver
+        refserver.start(hashseed + 7919)
     for i in range(start, start + count):
         wseed = H(master, pid, "world", i)
         try:
@@ -161,6 +164,9 @@ def one_main(specfile):
     prop = load_prop(pid)
     from . import world as W
     W.install()
+    if getattr(prop, "NEEDS_REFSERVER", False):
+        from . import refserver
+        refserver.start(spec["_meta"]["hashseed"] + 7919)
     outcome = run_in_child(lambda: prop.execute(spec), getattr(prop, "RUN_TIMEOUT", 120))
     sys.stdout.write("J " + json.dumps({"outcome": outcome}) + "\n")
 
@@ -188,6 +194,9 @@ def shrink_main(specfile, outfile, clause, budget):
     prop = load_prop(pid)
     from . import world as W
     W.install()
+    if getattr(prop, "NEEDS_REFSERVER", False):
+        from . import refserver
+        refserver.start(spec["_meta"]["hashseed"] + 7919)
     timeout = getattr(prop, "RUN_TIMEOUT", 120)
     t0 = time.time()
 
@@ -494,6 +503,10 @@ def main(argv=None):
         return 0
     if a.role == "one":
         one_main(a.spec)
+        return 0
+    if a.role == "refserver":
+        from . import refserver
+        refserver.serve()
         return 0
     if a.role == "shrink":
         shrink_main(a.spec, a.out, a.clause, a.budget or 60)
